@@ -102,8 +102,43 @@ def field_effects(b, field):
                     kind = "inc" if m.group(1) == "Add" else "dec"
                 out.append((s, kind, txt))
     for s in lib.field_mut_calls(b, field):
-        out.append((s, "call:" + strip_generics(b.call_name(s.term)), R(b, s)))
+        k = _through_param(b, s, field)
+        out.append((s, k or ("call:" + strip_generics(b.call_name(s.term))), R(b, s)))
     return out
+
+
+def _through_param(b, s, field):
+    """`&mut self.<field>` handed to a crate-local helper that does exactly one `*param += 1` / `-= 1` on every path and nothing else
+    with it: the call counts as that inc / dec (one level)."""
+    prog = b.prog
+    if not hasattr(prog, "by_npath"):
+        return None
+    h = prog.by_npath(b.crate).get(strip_generics(b.call_name(s.term)))
+    if h is None or h is b:
+        return None
+    t = s.term
+    idx = None
+    for i, a in enumerate(t["args"]):
+        if a.get("k") in ("move", "copy") and "pr" not in a["p"]:
+            ds = b.defs.get(a["p"]["l"], [])
+            if len(ds) == 1 and ds[0][0] == "stmt" and ds[0][3]["k"] == "ref" and any(pr["k"] == "field" and pr["n"] == field for pr in ds[0][3]["p"].get("pr", ())):
+                idx = i + 1
+    if idx is None:
+        return None
+    writes, other = [], 0
+    for bi in sorted(h.live):
+        for si, st in enumerate(h.blocks[bi]["stmts"]):
+            if st["k"] == "assign" and st["p"]["l"] == idx and st["p"].get("pr"):
+                writes.append((Site(h, bi, si), render(h.rvalue_expr(st["r"]))))
+        tt = h.blocks[bi]["term"]
+        if tt and tt["k"] == "call" and any(a.get("k") in ("move", "copy") and a["p"]["l"] == idx and "pr" not in a["p"] for a in tt["args"]):
+            other += 1
+    if other or len(writes) != 1:
+        return None
+    if lib.count_range(h, [0], h.return_blocks(), [writes[0][0].bb]) != (1, 1):
+        return None
+    m = re.match(r"^(Add|Sub)(WithOverflow)?\(#%d, 1\)(\.0)?$" % idx, writes[0][1])
+    return ("inc" if m.group(1) == "Add" else "dec") if m else None
 
 
 def enum_known_edges(b, subj_pat, enum_pat, variants):
@@ -544,7 +579,7 @@ def with_helpers(prog, b, finder, problems=None, skip=()):
     for s in b.call_sites():
         name = strip_generics(b.call_name(s.term))
         h = by.get(name)
-        if h is None or h is b or h.summary() is not None or name in skip:
+        if h is None or h is b or name in skip:
             continue                # `skip`: functions that are analysed in their own right (not helpers of b)
         inner = finder(h)
         if not inner:
